@@ -18,8 +18,7 @@ the same verdict `v`.
 
 Common fragment (all explicit hypotheses): criteria protocol / not-protocol only (8-bit
 numbers or names), lower-case API actions, NO pass/next-tier rule in a profile, every tier with
-at least one enforced policy, IPv4, BPF build not split and without log actions / flow-log
-recording, plus the hypotheses of the two composed theorems (rendered chains present in the
+at least one enforced policy, IPv4, BPF build not split, plus the hypotheses of the two composed theorems (rendered chains present in the
 chain set, rule renderings exact — C08, ≤ 2 positive match blocks —, marks disjoint, packet is a
 NEW connection, …).  The layout of the iptables side (tiers → groups → policies) enters through
 `hT`/`hP`: its per-tier outcome lists are those of the shared tiers' policies.
@@ -220,6 +219,23 @@ example : TiersL4 [{ endAction := EndAction.deny, endRuleID := 0, policies := [{
   intro r hr
   simp at hr
   rcases hr with rfl | rfl <;> exact ⟨rfl, by decide⟩
+/-! ### Staged policies: a tier left without an enforced policy is skipped by all three models -/
+
+/-- The enforced view of a tier whose policies are all staged (or that has none) is the
+pass-through tier; every model skips it: reference / BPF, iptables, checker. -/
+theorem staged_only_tier_skipped (env : Env) (p : Pkt) (n : Int) (profiles : List Policy) (t : TierS) (ts : List Tier)
+    (h : ∀ q ∈ t.policies, q.staged = true) :
+    evalTiers env p .dest (enforcedTier t :: ts) = evalTiers env p .dest ts ∧
+    iptTiers env p (enforcedTier t :: ts) = iptTiers env p ts ∧
+    checkTiers n profiles (enforcedTier t :: ts) = checkTiers n profiles ts := by
+  have he : (t.policies.filter (fun q => !q.staged)) = [] := by
+    rw [List.filter_eq_nil_iff]
+    intro q hq; simp [h q hq]
+  have ht : enforcedTier t = { endAction := .pass, endRuleID := 0, policies := [] } := by
+    simp [enforcedTier, he]
+  rw [ht]
+  refine ⟨rfl, rfl, rfl⟩
+
 /-! ### Composition: rendered chains, BPF program and checker, over one reference -/
 
 theorem common_L4 {ps : List Policy} (h : PoliciesCommon ps) : PoliciesL4 ps := by
